@@ -30,7 +30,7 @@ ASSUMPTIONS = [
 
 
 def budget(tier):
-    return 2400 if tier == 'quick' else 45000
+    return 8000 if tier == 'quick' else 60000
 
 
 @st.composite
